@@ -70,6 +70,7 @@ type Fx struct {
 	exitSuffix string
 	autoAnns   map[*LoopInfo]*LoopAnn
 	AutoLoops  map[string]int
+	Variants   map[string]string // sweep mode: termination measure found per unannotated loop
 	curFrameVals map[ssa.Value]Val
 	keepDry    *[]*State
 	keepAssume bool
@@ -681,6 +682,10 @@ func (fx *Fx) execInstr(st *State, ins ssa.Instruction) {
 		for i := 0; i < tt.Len(); i++ {
 			et := tt.At(i).Type()
 			if b, ok := et.(*types.Basic); ok && b.Kind() == types.Invalid {
+				// unused component: keep the tuple layout that Extract expects
+				for k := int64(0); k < slots(et); k++ {
+					v.L = append(v.L, Sym(freshName("next!unused"), B64))
+				}
 				continue
 			}
 			fv := freshVal(et, "next")
